@@ -1,6 +1,113 @@
 package eng
 
-// RunSelfTests is replaced in selftest_run.go once the mutation corpus exists.
-func RunSelfTests(repo, verif, id string) *SelfTestResult { return runSelfTests(repo, verif, id) }
+import (
+	"encoding/json"
+	"fmt"
+	"os"
+	"path/filepath"
+	"regexp"
+	"runtime/debug"
+	"sort"
+)
 
-var runSelfTests = func(repo, verif, id string) *SelfTestResult { return nil }
+// Failing lists what a finished context would report: failed obligations
+// ("rule:key"), undecided problems and vacuity-floor failures.
+func (c *Ctx) Failing() []string {
+	var out []string
+	seen := map[string]bool{}
+	counts := map[string]int{}
+	for _, ob := range c.Obls {
+		counts[ob.Rule]++
+		if !ob.OK {
+			k := ob.Rule + ":" + ob.Key
+			if !seen[k] {
+				seen[k] = true
+				out = append(out, k)
+			}
+		}
+	}
+	for _, p := range c.problems {
+		out = append(out, "undecided:"+p)
+	}
+	for r, min := range c.floors {
+		if counts[r] < min {
+			out = append(out, fmt.Sprintf("floor:%s(%d<%d)", r, counts[r], min))
+		}
+	}
+	sort.Strings(out)
+	return out
+}
+
+var seededName = regexp.MustCompile(`^(?:revert-)?(C\d\d)(?:-|$)`)
+
+// RunSelfTests re-analyses the property under every kept seeded change of
+// /verif/seeded that belongs to it: the change is applied in memory (an
+// overlay over repo's current files — the disk is not touched), the packages
+// of the property are reloaded and its rules run; the rules must report
+// something. A change that no longer applies to the current tree is skipped.
+// The result is evidence about the checker, not about the tree: a miss never
+// turns into a violation.
+func RunSelfTests(repo, verif, id string, run func(*Ctx)) *SelfTestResult {
+	prop := Lookup(id)
+	res := &SelfTestResult{}
+	dir := filepath.Join(verif, "seeded")
+	ents, err := os.ReadDir(dir)
+	if err != nil {
+		return res
+	}
+	for _, e := range ents {
+		if !e.IsDir() {
+			continue
+		}
+		m := seededName.FindStringSubmatch(e.Name())
+		if m == nil {
+			continue
+		}
+		owner := m[1]
+		var meta struct {
+			CheckWith string `json:"check_with"`
+		}
+		if b, err := os.ReadFile(filepath.Join(dir, e.Name(), "meta.json")); err == nil {
+			json.Unmarshal(b, &meta)
+		}
+		if owner != id && meta.CheckWith != id {
+			continue
+		}
+		diff, err := os.ReadFile(filepath.Join(dir, e.Name(), "patch.diff"))
+		if err != nil {
+			continue
+		}
+		overlay, err := ApplyUnifiedDiff(repo, diff)
+		if err != nil {
+			res.Skipped = append(res.Skipped, e.Name()+": "+err.Error())
+			continue
+		}
+		var patterns []string
+		for _, p := range prop.Packages {
+			patterns = append(patterns, "./"+p)
+		}
+		prog, err := Load(LoadOptions{Dir: repo, Patterns: patterns, Overlay: overlay})
+		res.Ran++
+		if err != nil {
+			// a change that stops the tree from loading is reported by the check itself
+			res.Caught++
+			res.CaughtBy = append(res.CaughtBy, e.Name()+": load error")
+			continue
+		}
+		c := NewCtx(prog, prop, "selftest", "seeded:"+e.Name())
+		run(c)
+		f := c.Failing()
+		if len(f) == 0 {
+			res.Missed = append(res.Missed, e.Name())
+		} else {
+			res.Caught++
+			if len(f) > 3 {
+				f = append(f[:3], fmt.Sprintf("… (%d more)", len(f)-3))
+			}
+			res.CaughtBy = append(res.CaughtBy, fmt.Sprintf("%s: %v", e.Name(), f))
+		}
+		prog = nil
+		debug.FreeOSMemory()
+	}
+	return res
+}
